@@ -97,7 +97,7 @@ def run(ctx):
     m = re.search(r"->flags\s*=\s*flags\s*&\s*\(([^)]*)\)", bind_b)
     kept = _mask(m.group(1), consts) if m else None
     # the constant tested before the unbind notification, and the flags passed
-    m = re.search(r"if\s*\(\s*bind->flags\s*&\s*(\w+)\s*\)", unb_b)
+    m = re.search(r"bind->flags\s*&\s*(TICKIT_\w+)", unb_b)
     unb_test = consts.get(m.group(1)) if m else None
     m = re.search(r"\(\s*owner\s*,\s*([A-Z_|\s]+?)\s*,\s*NULL", unb_b)
     unb_call = _mask(m.group(1), consts) if m else None
